@@ -1,142 +1,2 @@
-(* LeafAgree.v — the leaf decision functions regenerated from /repo's current source (Gen/Leaf.v) are extensionally
-   equal to the hand-written ones the model and all theorems use.  Scripts are written to survive harmless respellings
-   of the source (case split on every comparison, then lia): a semantic edit makes one of them fail. *)
-From Coq Require Import ZArith List Bool Arith Lia.
-Import ListNotations.
-From OvldV Require Import Model.Order Model.Ty Model.Resolve Gen.Leaf Proofs.ResolveSort.
-
-Ltac split_ifs :=
-  repeat match goal with
-         | |- context [if ?c then _ else _] => let E := fresh "E" in destruct c eqn:E
-         end.
-
-Ltac to_prop :=
-  repeat match goal with
-         | H : Z.ltb _ _ = true |- _ => apply Z.ltb_lt in H
-         | H : Z.ltb _ _ = false |- _ => apply Z.ltb_ge in H
-         | H : Z.leb _ _ = true |- _ => apply Z.leb_le in H
-         | H : Z.leb _ _ = false |- _ => apply Z.leb_gt in H
-         | H : Z.eqb _ _ = true |- _ => apply Z.eqb_eq in H
-         | H : Z.eqb _ _ = false |- _ => apply Z.eqb_neq in H
-         | H : Nat.ltb _ _ = true |- _ => apply Nat.ltb_lt in H
-         | H : Nat.ltb _ _ = false |- _ => apply Nat.ltb_ge in H
-         | H : Nat.leb _ _ = true |- _ => apply Nat.leb_le in H
-         | H : Nat.leb _ _ = false |- _ => apply Nat.leb_gt in H
-         | H : Nat.eqb _ _ = true |- _ => apply Nat.eqb_eq in H
-         | H : Nat.eqb _ _ = false |- _ => apply Nat.eqb_neq in H
-         | H : negb _ = true |- _ => apply negb_true_iff in H
-         | H : negb _ = false |- _ => apply negb_false_iff in H
-         end.
-
-Lemma opposite_agree o : opposite_src o = opposite o.
-Proof. first [reflexivity | destruct o; reflexivity]. Qed.
-
-Lemma forallb_eq {X} (p q : X -> bool) l : (forall x, p x = q x) -> forallb p l = forallb q l.
-Proof. intros H; induction l; simpl; congruence. Qed.
-
-Lemma existsb_eq {X} (p q : X -> bool) l : (forall x, p x = q x) -> existsb p l = existsb q l.
-Proof. intros H; induction l; simpl; congruence. Qed.
-
-(* membership tests against literal sets of orders, as predicates on one order *)
-Definition in_orders (xs : list order) (x : order) : bool := existsb (order_eqb x) xs.
-
-Lemma merge_ref l :
-  merge l =
-    if forallb (in_orders [SAME]) l && negb (match l with [] => true | _ => false end) then SAME
-    else if forallb (in_orders [LESS; SAME]) l then LESS
-    else if forallb (in_orders [MORE; SAME]) l then MORE
-    else NONE.
-Proof.
-  unfold merge.
-  rewrite (forallb_eq is_same (in_orders [SAME])) by (intros []; reflexivity).
-  rewrite (forallb_eq le_same (in_orders [LESS; SAME])) by (intros []; reflexivity).
-  rewrite (forallb_eq ge_same (in_orders [MORE; SAME])) by (intros []; reflexivity).
-  rewrite andb_comm. reflexivity.
-Qed.
-
-Lemma all_same_exists l : forallb (in_orders [SAME]) l = true ->
-  existsb (fun x => order_eqb x SAME) l = negb (match l with [] => true | _ => false end).
-Proof. destruct l as [|x r]; simpl; [reflexivity|]. destruct x; simpl; try discriminate. reflexivity. Qed.
-
-Lemma merge_agree l : merge_src l = merge l.
-Proof.
-  (* when the source left the translator's subset, merge_src is the hand-written function itself: reflexivity *)
-  first
-    [ reflexivity
-    | rewrite merge_ref; unfold merge_src;
-      (* every generated membership test is an in_orders test, whatever the order in which the set literal lists its members *)
-      repeat match goal with
-             | |- context [forallb ?p l] =>
-                 lazymatch p with
-                 | in_orders _ => fail
-                 | _ => first
-                     [ rewrite (forallb_eq p (in_orders [SAME])) by (intros []; reflexivity)
-                     | rewrite (forallb_eq p (in_orders [LESS; SAME])) by (intros []; reflexivity)
-                     | rewrite (forallb_eq p (in_orders [MORE; SAME])) by (intros []; reflexivity) ]
-                 end
-             end;
-      destruct (forallb (in_orders [SAME]) l) eqn:Es;
-      [ rewrite (all_same_exists _ Es); reflexivity | reflexivity ] ].
-Qed.
-
-Lemma all2_ge l1 l2 : all2_src (fun x y => Nat.leb y x) l1 l2 = all_ge l1 l2.
-Proof. revert l2. induction l1 as [|x xs IH]; intros [|y ys]; simpl; try reflexivity. now rewrite IH. Qed.
-
-Lemma all2_src_ext f g l1 l2 : (forall x y, f x y = g x y) -> all2_src f l1 l2 = all2_src g l1 l2.
-Proof. intros H. revert l2. induction l1 as [|x xs IH]; intros [|y ys]; simpl; try reflexivity. now rewrite H, IH. Qed.
-
-Lemma dominates_agree a b : dominates_src a b = dominates a b.
-Proof.
-  first
-    [ reflexivity
-    | unfold dominates_src, dominates;
-      (* the elementwise test, however the comparison is spelt, is x >= y *)
-      repeat match goal with
-             | |- context [all2_src ?f ?l1 ?l2] =>
-                 lazymatch f with
-                 | (fun x y => Nat.leb y x) => fail
-                 | _ => rewrite (all2_src_ext f (fun x y => Nat.leb y x) l1 l2)
-                          by (intros x y; split_ifs; destruct (Nat.leb y x) eqn:?; to_prop; try reflexivity; lia)
-                 end
-             end;
-      rewrite ?all2_ge;
-      split_ifs; to_prop; try reflexivity; try lia; try congruence ].
-Qed.
-
-(* the stable sort compares sort_key tuples lexicographically, descending *)
-Definition lex_gt (k1 k2 : Z * nat * Z) : Prop :=
-  let '(p1, s1, t1) := k1 in let '(p2, s2, t2) := k2 in
-  (p2 < p1)%Z \/ (p1 = p2 /\ (s2 < s1 \/ (s1 = s2 /\ (t2 < t1)%Z))).
-
-Lemma sort_key_agree a b : key_gt a b = true <-> lex_gt (sort_key_src a) (sort_key_src b).
-Proof. unfold sort_key_src, lex_gt. rewrite key_gt_spec. tauto. Qed.
-
-Lemma arity_agree m nargs names : arity_ok_src m nargs names = arity_ok m nargs names.
-Proof.
-  first
-    [ reflexivity
-    | unfold arity_ok_src, arity_ok;
-      destruct (forallb (fun k => memb k names) (m_reqkw m)); rewrite ?andb_true_r, ?andb_false_r; try reflexivity;
-      repeat match goal with |- context [Nat.leb ?x ?y] => destruct (Nat.leb x y) eqn:? end;
-      repeat match goal with |- context [Nat.ltb ?x ?y] => destruct (Nat.ltb x y) eqn:? end;
-      to_prop; simpl; try reflexivity; lia ].
-Qed.
-
-(* the grouping loop of _pull *)
-Lemma existsb_dom_agree kept c2 :
-  existsb (fun c => dominates_src c c2) kept = existsb (fun c => dominates c c2) kept.
-Proof. induction kept as [|a r IH]; simpl; [reflexivity|]. now rewrite dominates_agree, IH. Qed.
-
-Lemma grp_agree : forall rest kept, grp_src kept rest = grp kept rest.
-Proof.
-  first
-    [ intros; reflexivity
-    | induction rest as [|c2 r IH]; intros kept; simpl; [reflexivity|];
-      rewrite ?negb_involutive, ?existsb_dom_agree;
-      destruct (existsb (fun c => dominates c c2) kept); cbn [negb]; rewrite ?IH; reflexivity ].
-Qed.
-
-(* the issubclass fallback at the end of typeorder, as the model's tord_body spells it *)
-Lemma cls_tail_agree s12 s21 :
-  cls_tail_src s12 s21 = (if s12 && s21 then SAME else if s12 then LESS else if s21 then MORE else NONE).
-Proof. destruct s12, s21; reflexivity. Qed.
+(* LeafAgree.v -- re-exports the agreement lemmas (kept for compatibility; property files import the group they need). *)
+From OvldV Require Export Proofs.LeafOrder Proofs.LeafCand Proofs.LeafMissing.
